@@ -559,7 +559,8 @@ func lnBig(c int) *big.Float {
 }
 
 // ApEn: V = 2n[ln2 - (phi_m - phi_{m+1})] with phi_m = sum (c/n) ln(c/n)
-//     = 2n ln2 - 2(S_m - S_{m+1}),  S_m = sum c ln c  (the n ln n terms cancel).
+//
+//	= 2n ln2 - 2(S_m - S_{m+1}),  S_m = sum c ln c  (the n ln n terms cancel).
 func ApEn(e Bits, m int) (float64, float64) {
 	n := len(e)
 	S := func(m int) *big.Float {
